@@ -26,7 +26,7 @@ import suites
 # is false on a REAL observation is a violation with that observation as the replay.
 
 LAYOUT = ["shape", "order", "level-missing", "level-extra", "driver-exception"]
-XLAYOUT = ["shape", "order", "tlorder", "level-plan", "level-missing", "accept", "builderr", "driver-exception"]
+XLAYOUT = ["shape", "order", "tlorder", "level-plan", "level-missing", "accept", "faccept", "builderr", "driver-exception"]
 PROPS = {
     "C01": dict(suites={"plan": dict(fields=LAYOUT, oracles=["isolated", "exec_perm"]),
                         "exec": dict(fields=XLAYOUT, oracles=["no_overlap", "borrow_panic"])}),
@@ -43,7 +43,7 @@ PROPS = {
     "C10": dict(suites={"plan": dict(fields=LAYOUT + ["maxthr"], oracles=["skip_justified", "max_threads"])}),
     "C12": dict(suites={"plan": dict(fields=["tl", "tlorder", "sendable", "driver-exception"], oracles=["tl_order", "sendable", "sendable_preserves_plan"]),
                         "exec": dict(fields=XLAYOUT, oracles=["tl_on_caller", "inner_tl_on_caller", "tl_last"], kf1=True)}),
-    "C13": dict(suites={"exec": dict(fields=["builderr", "driver-exception"], oracles=["setup_visits", "setup_keeps", "dispose_visits"])}),
+    "C13": dict(suites={"exec": dict(fields=["builderr", "driver-exception", "setup_order", "dispose_order"], oracles=["setup_visits", "setup_keeps", "dispose_visits"])}),
     "C14": dict(suites={"exec": dict(fields=XLAYOUT, oracles=["panic_payload", "panic_dependents", "panic_twice", "next_dispatch", "probe_free",
                                                               "unexpected_panic"])}),
     "C18": dict(suites={"plan": dict(fields=["calls", "err", "driver-exception"], oracles=["errors_exact", "status:setup-panic", "status:run-panic"],
@@ -154,6 +154,7 @@ def main():
     # 3+4. suites
     violations = []     # (oracle, level, case, suite)
     disagreements = []  # (field, level, model, real, case, suite)
+    known_disagreements = []
     suite_stats = {}
     if harness_ok and b["driver"][0]:
         for sname, sspec in spec["suites"].items():
@@ -168,6 +169,12 @@ def main():
                     violations.append((o, lvl, case, sname))
             for (f, lvl, m, rl, case) in r.disagreements:
                 if f in sspec["fields"] or f.split(":")[0] in sspec["fields"]:
+                    kf = suites.match_known(known, sname, case, f)
+                    if kf is not None:
+                        # the run of a program of a listed known-finding class (e.g. KF1: the real dispatch may end in a
+                        # borrow panic): its trace is not expected to lie in the model's trace set
+                        known_disagreements.append((kf["id"], f, case))
+                        continue
                     disagreements.append((f, lvl, m, rl, case, sname))
             if r.error:
                 broken.append(("suite-" + sname, r.error))
@@ -177,6 +184,11 @@ def main():
     out_lines = []
     n_viol = 0
     reported_known = set()
+    for (kid, f, case) in known_disagreements:
+        if kid not in reported_known:
+            reported_known.add(kid)
+            kf = [k for k in known if k.get("id") == kid][0]
+            out_lines.append("KNOWN-FINDING: property=%s %s: %s" % (pid, kid, kf["what"]))
     if violations:
         # group by oracle; shrink the first of each; classify against known findings
         seen = set()
